@@ -535,9 +535,34 @@ pub fn emit_shard_darling_only(recvs: &[Recv], ids: &[usize]) -> String {
         out.push('\n');
     }
     out.push_str("#[allow(non_camel_case_types)]\nmod hostile_prelude {\n    pub struct Vec;\n    pub struct Option;\n    pub struct Result;\n    pub struct String;\n    pub struct Box;\n    pub struct Some;\n    pub struct None;\n    pub struct Ok;\n    pub struct Err;\n}\nuse hostile_prelude::*;\n");
+    // receivers written by a macro_rules! macro: the field types and converter paths are macro
+    // arguments, i.e. tokens of another syntax context than the `#[derive]` itself; generated locals
+    // must not inherit that context
+    out.push_str(MACRO_MADE);
     out.push_str("fn main() {}\n");
     out
 }
+
+const MACRO_MADE: &str = r#"
+fn mm_with(m: &::darling::export::syn::Meta) -> ::darling::Result<u8> { <u8 as ::darling::FromMeta>::from_meta(m) }
+fn mm_attrs(a: ::std::vec::Vec<::darling::export::syn::Attribute>) -> ::darling::Result<usize> { ::core::result::Result::Ok(a.len()) }
+macro_rules! mm_meta { ($name:ident, $ty:ident, $with:path) => {
+    #[derive(::darling::FromMeta)] pub struct $name { #[darling(with = $with)] pub a: $ty, pub b: $ty, #[darling(multiple)] pub c: ::std::vec::Vec<$ty> }
+}; }
+mm_meta!(MacroMadeMeta, u8, mm_with);
+macro_rules! mm_enum { ($name:ident, $($ty:tt)*) => {
+    #[derive(::darling::FromMeta)] pub enum $name { Plain, Wrapped($($ty)*), Fields { #[darling(with = mm_with)] x: u8, y: $($ty)* } }
+}; }
+mm_enum!(MacroMadeEnum, ::core::option::Option<u8>);
+macro_rules! mm_input { ($name:ident, $($ty:tt)*) => {
+    #[derive(::darling::FromDeriveInput)] #[darling(attributes(x), forward_attrs)] pub struct $name { pub ident: ::darling::export::syn::Ident, pub f: $($ty)*, #[darling(with = mm_attrs)] pub attrs: usize }
+}; }
+mm_input!(MacroMadeInput, ::core::option::Option<u8>);
+macro_rules! mm_field { ($name:ident, $ty:ident, $attrs:path) => {
+    #[derive(::darling::FromField)] #[darling(attributes(x), forward_attrs(doc))] pub struct $name { pub f: $ty, #[darling(with = $attrs)] pub attrs: usize }
+}; }
+mm_field!(MacroMadeField, bool, mm_attrs);
+"#;
 
 /// Source of one shard: receivers `ids` plus everything they reference.
 pub fn emit_shard(recvs: &[Recv], ids: &[usize]) -> String {
